@@ -101,44 +101,6 @@ fn mk_time(h: i8, m: i8, s: i8, ns: i32) -> Time {
 }
 
 // ---------------------------------------------------------------- printer side
-//@harness c09_print_date
-//@target fmt::temporal::printer::DateTimePrinter::print_date + fmt::util::{DecimalFormatter,Decimal::new} (src/fmt/temporal/printer.rs, src/fmt/util.rs)
-//@prop C09
-//@tier quick
-//@timeout 900
-//@doc for EVERY civil date (-9999-01-01..=9999-12-31): the printed text is `YYYY-MM-DD` (10 bytes) for year >= 0 and `-YYYYYY-MM-DD` (13 bytes, ISO 8601 expanded year) for year < 0, and the independent reference reader decodes it to exactly (year, month, day)  [decode . print = id on Date]
-#[kani::proof]
-#[kani::unwind(9)]
-fn c09_print_date() {
-    let (y, m, d) = any_ymd();
-    let date = mk_date(y, m, d);
-    let mut w = Buf::new();
-    let r = DateTimePrinter::new().print_date(&date, &mut w);
-    assert!(r.is_ok() && !w.overflow);
-    assert!(w.n == if y >= 0 { 10 } else { 13 });
-    assert!(y >= 0 || w.b[0] == b'-');
-    assert!(ref_date(&w.b, w.n) == Some((y as i64, m as i64, d as i64)));
-}
-
-//@harness c09_print_time
-//@target fmt::temporal::printer::DateTimePrinter::print_time + fmt::util::{Decimal::new,Fractional::new} (src/fmt/temporal/printer.rs, src/fmt/util.rs)
-//@prop C09
-//@tier quick
-//@timeout 900
-//@doc for EVERY civil time (00:00:00..=23:59:59.999999999), default printer configuration: the text is `HH:MM:SS` (8 bytes) iff the nanosecond is 0, otherwise `HH:MM:SS.` + 1..=9 digits whose last digit is not '0' (trailing zeros trimmed), and the independent reference reader decodes it to exactly (hour, minute, second, nanosecond)  [decode . print = id on Time]
-#[kani::proof]
-#[kani::unwind(11)]
-fn c09_print_time() {
-    let (h, m, s, ns) = any_time_fields();
-    let time = mk_time(h, m, s, ns);
-    let mut w = Buf::new();
-    let r = DateTimePrinter::new().print_time(&time, &mut w);
-    assert!(r.is_ok() && !w.overflow);
-    assert!((w.n == 8) == (ns == 0));
-    assert!(w.n == 8 || (10 <= w.n && w.n <= 18 && w.b[w.n - 1] != b'0'));
-    assert!(ref_time(&w.b, w.n) == Some((h as i64, m as i64, s as i64, ns as i64)));
-}
-
 // ---------------------------------------------------------------- parser side: dates
 /// Reference PREFIX reader for the Temporal `Date` production on an N-byte string (ISO 8601 calendar date,
 /// extended `YYYY-MM-DD` or basic `YYYYMMDD`, year either 4 digits or sign + 6 digits, "-000000" excluded,
@@ -176,53 +138,7 @@ fn copy_into<const N: usize>(b: &[u8; N]) -> [u8; BUF] {
     out
 }
 
-//@harness c09_parse_date_spec_10
-//@target fmt::temporal::parser::DateTimeParser::{parse_date_spec,parse_year,parse_year_sign,parse_month,parse_day,parse_date_separator} + util::parse::{i64,split,slicer} + civil::Date::new_ranged (src/fmt/temporal/parser.rs)
-//@prop C09
-//@tier quick
-//@timeout 900
-//@doc for EVERY 10-byte string: parse_date_spec returns Ok exactly when the reference prefix reader finds a Gregorian date (extended or basic form), with exactly that (year, month, day) and exactly the reference's unconsumed rest (0 bytes for YYYY-MM-DD, 2 for YYYYMMDD); everything else is Err, never a panic
-#[kani::proof]
-#[kani::unwind(8)]
-fn c09_parse_date_spec_10() {
-    let b: [u8; 10] = kani::any();
-    let r = DateTimeParser::new().parse_date_spec(&b);
-    match ref_date_prefix(&b) {
-        None => assert!(r.is_err()),
-        Some((y, m, d, used)) => match r {
-            Err(_) => assert!(false, "a valid date was rejected"),
-            Ok(p) => {
-                assert!(ymd(p.value.date) == (y, m, d));
-                assert!(p.input.len() == 10 - used);
-            }
-        },
-    }
-}
-
-//@harness c09_parse_date_spec_13
-//@target fmt::temporal::parser::DateTimeParser::{parse_date_spec,parse_year,parse_year_sign,parse_month,parse_day,parse_date_separator} + util::parse::{i64,split,slicer} + civil::Date::new_ranged (src/fmt/temporal/parser.rs)
-//@prop C09
-//@tier quick
-//@timeout 900
-//@doc for EVERY 13-byte string (the length of the printer's negative-year form): parse_date_spec == reference prefix reader (sign + six-digit years: in -9999..=9999, "-000000" rejected, '+' accepted), same date, same unconsumed rest; everything else Err, never a panic
-#[kani::proof]
-#[kani::unwind(8)]
-fn c09_parse_date_spec_13() {
-    let b: [u8; 13] = kani::any();
-    let r = DateTimeParser::new().parse_date_spec(&b);
-    match ref_date_prefix(&b) {
-        None => assert!(r.is_err()),
-        Some((y, m, d, used)) => match r {
-            Err(_) => assert!(false, "a valid date was rejected"),
-            Ok(p) => {
-                assert!(ymd(p.value.date) == (y, m, d));
-                assert!(p.input.len() == 13 - used);
-            }
-        },
-    }
-}
-
-//@harness c09_parse_date_10
+//@harness x09_parse_date_10_kissat
 //@target fmt::temporal::DateTimeParser::parse_date (= <civil::Date as FromStr>::from_str) -> parser::DateTimeParser::parse_temporal_datetime -> Parsed::into_full -> ParsedDateTime::to_date (src/fmt/temporal/mod.rs, parser.rs)
 //@prop C09
 //@tier quick
@@ -230,7 +146,8 @@ fn c09_parse_date_spec_13() {
 //@doc for EVERY 10-byte string: the public date parser returns Ok(d) exactly when the string is `YYYY-MM-DD` naming a Gregorian date per the independent reference reader (the same reader that decodes the printer's output), and d has exactly those fields; every other 10-byte string (including the basic form + 2 trailing bytes) is Err  [parse = decode on the printer's positive-year shape]
 #[kani::proof]
 #[kani::unwind(8)]
-fn c09_parse_date_10() {
+#[kani::solver(kissat)]
+fn x09_parse_date_10_kissat() {
     let b: [u8; 10] = kani::any();
     let r = crate::fmt::temporal::DateTimeParser::new().parse_date(&b);
     match ref_date(&copy_into(&b), 10) {
@@ -242,23 +159,3 @@ fn c09_parse_date_10() {
     }
 }
 
-//@harness c09_parse_date_13
-//@target fmt::temporal::DateTimeParser::parse_date (= <civil::Date as FromStr>::from_str) -> parser::DateTimeParser::parse_temporal_datetime -> Parsed::into_full -> ParsedDateTime::to_date (src/fmt/temporal/mod.rs, parser.rs)
-//@prop C09
-//@tier quick
-//@timeout 900
-//@doc for EVERY 13-byte string that starts with '+' or '-': the public date parser returns Ok(d) exactly when the string is `sYYYYYY-MM-DD` naming a Gregorian date in -9999..=9999 per the independent reference reader ("-000000" is Err), and d has exactly those fields  [parse = decode on the printer's negative-year shape].  13-byte strings that start with a digit (e.g. `2024-01-01T12`, `20240101[UTC]`) are a different production and not covered here.
-#[kani::proof]
-#[kani::unwind(8)]
-fn c09_parse_date_13() {
-    let b: [u8; 13] = kani::any();
-    kani::assume(b[0] == b'+' || b[0] == b'-');
-    let r = crate::fmt::temporal::DateTimeParser::new().parse_date(&b);
-    match ref_date(&copy_into(&b), 13) {
-        None => assert!(r.is_err()),
-        Some((y, m, d)) => match r {
-            Err(_) => assert!(false, "a valid date was rejected"),
-            Ok(date) => assert!(ymd(date) == (y, m, d)),
-        },
-    }
-}
